@@ -35,7 +35,7 @@ class D(RenderDriver):
         ("picosvg.svg_transform", "Affine2D.round"),
     )
     nt_floor = {"quick": 120, "thorough": 3000}
-    feature_floors = {"grad_linearGradient": 100, "grad_radialGradient": 100, "grad_href": 60, "grad_href_stops": 20, "grad_transform": 100,
+    feature_floors = {"judged.grad_linearGradient": 120, "judged.grad_radialGradient": 120, "judged.grad_href": 55, "judged.grad_href_stops": 30, "judged.grad_units_userSpaceOnUse": 80, "judged.grad_units_objectBoundingBox": 80, "judged.grad_percent": 100, "judged.grad_focal": 45, "judged.grad_transform": 120, "judged.grad_shape_transform": 100, "judged.grad_group_transform": 120, "judged.grad_shared_under_one_transform": 40, "judged.grad_nonsquare_viewbox": 50, "judged.grad_defs_after_users": 25, "grad_linearGradient": 100, "grad_radialGradient": 100, "grad_href": 60, "grad_href_stops": 20, "grad_transform": 100,
                       "grad_units_userSpaceOnUse": 60, "grad_units_objectBoundingBox": 60, "grad_percent": 60, "grad_focal": 20,
                       "grad_shape_translate": 60, "grad_shape_transform": 60, "grad_spread_repeat": 20, "grad_spread_reflect": 20, "grad_shared_under_one_transform": 60}
 
